@@ -89,6 +89,10 @@ def stream_serialize_vlq(f: BinaryIO, i: int) -> None:
         mod = div
 
 
+# 10 octets of 7 bits each hold any value below 2^70; no field of the protocol comes near that.
+MAX_VLQ_LENGTH = 10
+
+
 def stream_deserialize_vlq(f: BinaryIO) -> int:
     """ """
     result = 0
@@ -97,6 +101,11 @@ def stream_deserialize_vlq(f: BinaryIO) -> int:
     while True:
         (b,) = struct.unpack(b"B", safe_read(f, 1))
         length += 1
+
+        if length > MAX_VLQ_LENGTH:
+            # without a bound, a peer can send megabytes of continuation octets; accumulating them into an ever longer
+            # integer takes time quadratic in their number, during which nothing else is served.
+            raise DeserializationError("VLQ encoding too long")
 
         result += (b % 128)
 
